@@ -70,6 +70,8 @@ func loadPath(v ssa.Value, path ...string) (ssa.Value, bool) {
 }
 
 func runC08(p *Prog, r *Report) {
+	// R7: debug logging does not change the request that is forwarded (a filled req.Form makes the stdlib proxy re-encode the query); shared with C06.R6
+	checkDumpReadOnly(p, r, "C08.R7")
 	c08Modify(p, r)
 	c08Headers(p, r)
 	c08Wiring(p, r)
@@ -726,14 +728,14 @@ func c08Wiring(p *Prog, r *Report) {
 		if f := cc.StaticCallee(); f != nil && f.Name() == "RemoveHeaders" && len(cc.Args) == 2 && globalOf(cc.Args[1]) == modPath+"/forward.HopHeaders" {
 			return true
 		}
-		if ccIs(cc, pkgHTTP, "Header.Del") {
-			if k, ok := constString(cc.Args[1]); ok && (k == "Connection" || k == "Te" || k == "Upgrade" || k == "Keep-Alive") {
+		if ccIs(cc, pkgHTTP, "Header.Del") || ccIs(cc, pkgHTTP, "Header.Set") || ccIs(cc, pkgHTTP, "Header.Add") {
+			if k, ok := constString(cc.Args[1]); ok && (strings.EqualFold(k, "Connection") || strings.EqualFold(k, "Te") || strings.EqualFold(k, "Keep-Alive") || (strings.EqualFold(k, "Upgrade") && ccIs(cc, pkgHTTP, "Header.Del"))) {
 				return true
 			}
 		}
 		return false
 	})
-	r.Check(!hop.May(hook), "C08.R6", "forward.New: hop-by-hop removal is left to the stdlib", p.FuncPos(hook), "the hook does not delete Connection / the hop-by-hop list", "the hook deletes the Connection header (or the hop-by-hop list) itself, before the stdlib reads it: headers the client named in Connection are no longer recognised as hop-by-hop and reach the backend")
+	r.Check(!hop.May(hook), "C08.R6", "forward.New: hop-by-hop removal is left to the stdlib", p.FuncPos(hook), "the hook does not delete or rewrite Connection / the hop-by-hop list", "the hook deletes or rewrites the Connection header (or the hop-by-hop list) itself, before the stdlib reads it: headers the client named in Connection are no longer recognised as hop-by-hop and reach the backend")
 	// ordering: derived from the stdlib's SSA
 	after, derived := hookRunsAfterHopRemoval(p, hookName)
 	if !derived {
